@@ -357,6 +357,7 @@ func RunCase(c *Case) *Result {
 	}
 	before := renderKV(userMap)
 	conn := NewConn(segments(c.In, c.Cuts), c.RF, c.WF)
+	conn.rtimeout = c.Extra["rto"] == "1"
 	conn.clientDone = c.EOF
 	if c.Extra["evat"] == "1" {
 		s.log.conn = conn
